@@ -125,6 +125,9 @@ UTF8_SAMPLES = [b"", b"a", b"abc", b"hello world", "é".encode(), "日本".encod
 BAD_UTF8 = [b"\xff", b"\xc0\x80", b"\xed\xa0\x80", b"a\x80", b"\xf4\x90\x80\x80", b"\xe2\x82", b"\xc3", b"ok\xfe\xff", b"\xf0\x80\x80\x80"]
 
 
+SPECIALS = [bytes([x]) for x in range(0x20)] + [b"\x7f", b'"', b"\\", b"/", b"<", b">", b"&", b"'", b" ", "\u2028".encode(), "\u2029".encode(),
+            "\u00e9".encode(), "\u0080".encode(), "\u07ff".encode(), "\u0800".encode(), "\ud7ff".encode(), "\ue000".encode(), "\ufffd".encode(),
+            "\uffff".encode(), "\U00010000".encode(), "\U0010ffff".encode(), b"\\u0041", b"\\n", b"\\\\"]
 PLAIN_KEYS = [b"", b"a", b"key", b"hello world", "é".encode(), "日本".encode(), "\U0001F600".encode(), b"<&>", b"\x7f", b"a/b", b"1", b"-5", b"true",
               "\u0080\u07ff\u0800\uffff".encode()]
 
@@ -165,12 +168,18 @@ class GenJ(cc.Gen1):
             hdr = bytes([len(s)])
             bb = hdr + s
             return bb + bytes(-len(bb) % 4)
-        if k < 3:
+        if k < 2:
             s = r.choice(UTF8_SAMPLES)
-        elif k < 5:
+        elif k < 3:
             s = r.choice(BAD_UTF8)
-        elif k < 6:
+        elif k < 4:
             s = r.bytes(r.choice(cc.STR_LENS))
+        elif k < 6:
+            # every character JSON treats specially, alone or mixed with plain text: all C0 controls, DEL, quote, backslash,
+            # solidus, <, >, &, U+2028/2029, 2/3/4-byte UTF-8, and (1 in 8) a stray byte that makes the string invalid UTF-8
+            s = b"".join(r.choice(SPECIALS) if r.chance(2, 3) else bytes([r.range(97, 122)]) for _ in range(r.choice([1, 1, 2, 3, 5, 8])))
+            if r.chance(1, 8):
+                s += bytes([r.range(0x80, 0xFF)])
         else:
             s = bytes(r.range(97, 122) for _ in range(r.choice(cc.STR_LENS)))
         if self.big and r.chance(1, 40):
@@ -825,6 +834,9 @@ def build_c06_cases(c, sc, rw, res, rng, cap):
             continue
         d = parse_out(a)
         if d.get("j", "!").startswith("!") or d.get("rt") != "ok":
+            # the canonical form is the reference of every rewrite: it must itself read back to the value it was written from
+            c.oracle_fail(l, "canonical JSON written by the implementation does not read back to the value it was written from "
+                             "(valid=%s rt=%s)" % (d.get("valid"), d.get("rt")), l)
             continue
         f = l.split(" ")
         inst = I[int(f[2])]
@@ -1002,9 +1014,46 @@ def fixed_values(sc):
     return out
 
 
+def string_sweep_values(sc):
+    """every single-byte string (0x00–0xff: all escapes of JSONWriteString, DEL, the 128 invalid-UTF-8 bytes) and every byte that needs
+    escaping embedded in text, in VALUE positions: the bare `string` item, a vector element, a dictionary value, a union value"""
+    out = []
+    esc = list(range(0x20)) + [0x7f, 0x22, 0x5c, 0x2f, 0x3c, 0x3e, 0x26]
+    multi = ["\u2028", "\u2029", "\u00e9", "\u0800", "\uffff", "\U00010000", "\U0010ffff"]
+    if inst_by_name(sc, "string"):
+        out += [("string", bytes([x]), "ok", "single byte 0x%02x" % x) for x in range(256)]
+        out += [("string", b"a" + bytes([x]) + b"b" + bytes([x]), "ok", "byte 0x%02x embedded" % x) for x in esc]
+        out += [("string", ("x" + m + "y").encode(), "ok", "multi-byte") for m in multi]
+        out += [("string", bytes(esc), "ok", "all escapes in one string")]
+    if inst_by_name(sc, "jx.vectors"):
+        out += [("jx.vectors", {"a": [], "b": [], "c": [bytes([x]), b"p" + bytes([x])], "d": [], "e": [0, 0, 0], "f": [bytes([x]), b""], "g": []},
+                 "ok", "byte 0x%02x as vector / tuple element" % x) for x in esc]
+        out += [("jx.dicts", {"a": [], "b": [{"key": b"k", "value": bytes([x]) + b"v"}], "c": [{"key": 5, "value": bytes([x])}], "d": [], "e": [], "f": [], "g": []},
+                 "ok", "byte 0x%02x as dictionary value" % x) for x in esc]
+        out += [("jx.unionBox", {"u": (2, bytes([x])), "us": [(3, {"x": 1, "y": bytes([x, x])})], "mu": None}, "ok", "byte 0x%02x as union value" % x) for x in esc]
+    if inst_by_name(sc, "cases.testUnionContainer"):
+        out += [("cases.testUnionContainer", {"value": (1, {"value": b"u" + bytes([x])})}, "ok", "byte 0x%02x in a union variant field" % x) for x in esc]
+    return out
+
+
+def known_answer_ok(cls, a, model_out):
+    """A known finding only covers the exact way its witness fails: anything else on that line is a new failure."""
+    d = parse_out(a) if a.startswith("ok ") else {}
+    if cls == "F1":
+        return a == "ok j=!invalid valid=0 rt=rej"
+    if cls == "F2":   # valid JSON, same tree as the model, only the re-read differs (key not unescaped)
+        m = parse_out(model_out) if model_out.startswith("ok ") else {}
+        return d.get("valid") == "1" and d.get("rt") == "json" and d.get("j") == m.get("j") and m.get("rt") == "ok"
+    if cls in ("L2", "L3"):   # the model follows the code here: identical answers, TL1 changes
+        return a == model_out and d.get("valid") == "1" and d.get("rt") == "tl1"
+    if cls == "F3":
+        return a == "panic"
+    return True
+
+
 def fixed_lines(sc):
     res = []
-    for name, v, exp, note in fixed_values(sc):
+    for name, v, exp, note in fixed_values(sc) + string_sweep_values(sc):
         i = inst_by_name(sc, name)
         if i is None:
             continue
